@@ -195,7 +195,7 @@ def check_invariant(handles: list[Any]) -> tuple[str, dict[str, Any]] | None:
         if p is not None:
             if p.detached:
                 return "attached-node-has-detached-parent", {"node": what}
-            val = getattr(p, n.parent_field.name) if n.parent_field is not None else None
+            val = getattr(p, n.parent_field.name, None) if n.parent_field is not None else None  # (a reported parent whose class has no such field stores nothing there)
             stored = (val[n.parent_index] if isinstance(val, (tuple, list)) and n.parent_index is not None and n.parent_index < len(val) else val) if n.parent_field is not None else None
             if stored is not n:
                 return "parent-does-not-store-node-at-reported-position", {"node": what, "field": None if n.parent_field is None else n.parent_field.name, "index": n.parent_index}
